@@ -159,11 +159,13 @@ Proof. exact ex_d_ok. Qed.
    names_ok root = true (coq/Ports/NamesModel.v; evaluated on every generated
    tree by the tie): names of the macro shape (sub-tree names of one or more
    components; literal text may hold digits, the text behind a '#N' does not
-   begin with one), and the keys of the ports of every table - the path part
-   with each '#N' and each digit run of the literal text replaced by '#' -
-   pairwise not prefixes of one another.  table_disjoint follows by
-   C05's soundness direction (whatever a name matches spells it, C05_no_spurious)
-   and the shape of an address (its digit runs collapsed to '#'). *)
+   begin with one), and no two ports of a table clash (NamesModel.clashb:
+   reading both path parts in step - literal characters must agree, '#N' against
+   '#M' goes on behind both - one name ends, or a '#N' meets a literal digit).  table_disjoint follows by
+   C05's soundness direction (whatever a name matches spells it, C05_no_spurious):
+   two names spelling comparable strings clash (NamesOk.clash_sound; two digit
+   runs at one place, each followed by a non-digit or the end, are equal or one
+   string ends there). *)
 Theorem C09_dispatchable_names_ok : forall hp tid root id a ty o,
   names_ok root = true -> tree_ok (to_tree hp tid root) ->
   forall out b, walk None (map render_port root) [] = WOk out b ->
